@@ -180,6 +180,36 @@ def classify_iteration(ctx, o, Lterm, units=()):
             role = "suffix" if z.entails("Eq", h, const(0)) else "last"
         if role and role not in nums:
             nums[role] = {"term": None, "ok": "Err", "ev": ev, "base": base, "h": h}
+    # ... and so is an established leading '+' (the one thing FromStr accepts beyond 1*DIGIT), tested before the parse
+    for t, v in o.cons.known.items():
+        if v != 1 or not isinstance(t, tuple) or not t:
+            continue
+        x = None
+        if t[0] == "eq" and len(t) == 3:
+            for a, b in ((t[1], t[2]), (t[2], t[1])):
+                if isinstance(a, tuple) and a and a[0] == "first" and is_agg(b) and b[3] == "Some" and agg_get(b, "0") == const(43):
+                    x = a[1]
+        elif t[0] == "call" and t[1].endswith("::starts_with") and len(t[2]) == 2:
+            lit = t[2][1]
+            if isinstance(lit, tuple) and lit[0] in ("refconst", "&"):
+                lit = lit[1]
+            if lit == const(43) or (isinstance(lit, tuple) and lit[0] in ("str", "bytes") and lit[1] == "+"):
+                x = t[2][0]
+        sl = find_slice(x) if x is not None else None
+        if sl is None:
+            continue
+        base, s, e = sl[1], sl[2], sl[3]
+        h = hyphen_term(o, base)
+        if h is None:
+            continue
+        z = Zone(_cons_all(o), extra_terms=(h, s) + ((e,) if e is not None else ()))
+        role = None
+        if e is not None and z.entails("Eq", s, const(0)) and z.entails("Eq", e, h):
+            role = "first"
+        elif e is None and z.entails("Eq", s, mk_binop("Add", h, const(1))):
+            role = "suffix" if z.entails("Eq", h, const(0)) else "last"
+        if role and role not in nums:
+            nums[role] = {"term": None, "ok": "Err", "ev": None, "base": base, "h": h}
     return info
 
 
